@@ -71,6 +71,17 @@ pub struct GenCfg {
 }
 
 pub fn random_scalar(rng: &mut Rng) -> Doc {
+    // now and then a value at the edge of what the payload can carry
+    if rng.chance(1, 12) {
+        return match rng.below(6) {
+            0 => Doc::Int(u64::MAX),
+            1 => Doc::Int(i64::MAX as u64 + 1),
+            2 => Doc::Neg(i64::MIN),
+            3 => Doc::Float(-0.0),
+            4 => Doc::Float(5e-324),
+            _ => Doc::Str("line\nbreak \\ \u{7f}".to_string()),
+        };
+    }
     match rng.below(8) {
         0 => Doc::Null,
         1 => Doc::Bool(rng.chance(1, 2)),
@@ -373,8 +384,8 @@ fn other_kind(doc: &Doc, rng: &mut Rng) -> Doc {
         let c = match rng.below(8) {
             0 => Doc::Null,
             1 => Doc::Bool(true),
-            2 => Doc::Int(rng.below(10) as u64),
-            3 => Doc::Neg(-3),
+            2 => Doc::Int(if rng.chance(1, 4) { u64::MAX - rng.below(3) as u64 } else { rng.below(10) as u64 }),
+            3 => Doc::Neg(if rng.chance(1, 4) { i64::MIN } else { -3 }),
             4 => Doc::Float(2.5),
             5 => Doc::Str("oops".to_string()),
             6 => Doc::Seq(vec![Doc::Int(1), Doc::Str("two".into())]),
